@@ -102,8 +102,8 @@ def run_shards(binary, scenarios, workdir, nproc=None, timeout=900, args=()):
     cur = None
     for o in outs:
         for line in o.splitlines():
-            if not line.strip():
-                continue
+            if not line.startswith("{"):
+                continue      # the database prints a few diagnostics to stdout
             rec = json.loads(line)
             if rec.get("a") == "Reset":
                 cur = rec["scn"]
